@@ -295,7 +295,7 @@ func checkWGDistribution(c *core.Ctx, prov *core.Prov, rule string) {
 		g := core.BuildGraph(fn, 0, nil)
 		var flat string
 		for _, n := range g.Nodes {
-			if bo, ok := n.Instr.(*ssa.BinOp); ok && (bo.Op == token.GEQ || bo.Op == token.LSS) {
+			if bo, ok := n.Instr.(*ssa.BinOp); ok && (bo.Op == token.GEQ || bo.Op == token.LSS || bo.Op == token.LEQ || bo.Op == token.GTR || bo.Op == token.EQL || bo.Op == token.NEQ) {
 				px, py := prov.Of(bo.X), prov.Of(bo.Y)
 				if strings.Contains(py, "wgDist") {
 					st4.Instances++
